@@ -22,7 +22,7 @@ def _alarm(_signum, _frame):
 	raise Timeout()
 
 
-def guarded(function, *args, seconds=3):
+def guarded(function, *args, seconds=1.0):
 	"""Runs implementation code with a time limit (mutated counts can make the real code loop for hours)."""
 	previous = signal.signal(signal.SIGALRM, _alarm)
 	signal.setitimer(signal.ITIMER_REAL, seconds)
